@@ -364,8 +364,16 @@ class proxy( object ):
             @functools.wraps( function )
             def wrapper( inst, *args, **kwds ):
                 with inst:
-                    for value in function( inst, *args, **kwds ):
-                        yield value
+                    results	= function( inst, *args, **kwds )
+                    try:
+                        for value in results:
+                            yield value
+                    except GeneratorExit:
+                        # Abandoned by the consumer.  That is fine if nothing more was to come (eg.
+                        # zip( params, reader ) stops without exhausting reader); otherwise, there
+                        # are responses left in flight: let the gateway be discarded.
+                        for value in results:
+                            raise
             return wrapper
 
         @functools.wraps( function )
